@@ -212,3 +212,20 @@ Definition run_merge_order (x : sx) : sx :=
   | Some ks => sx_ok (of_LZ (merge_markers (fun z => [z]) ks))
   | None => sx_bad
   end.
+
+(* input: (n k codes durs) -> option (the order in which the per-worker partial results are
+   folded): stats_result with A = list Z, add = app, partial i = [i], on the world (codes, durs).
+   By c04_stats_merge_order_fixed this is (0 1 ... k-1) for every clean world *)
+Definition run_stats_merge (x : sx) : sx :=
+  match x with
+  | L [n; k; cs; ds] =>
+      match sx_nat n, sx_nat k, sx_LZ cs, sx_Lnat ds with
+      | Some n, Some k, Some cs, Some ds =>
+          if (negb (length cs =? k)%nat || negb (length ds =? k)%nat || (n =? 0)%nat)%bool then sx_bad else
+          let W := {| code := nth_Z cs; dur := nth_N ds |} in
+          sx_ok (of_option of_LZ
+                   (stats_result (list Z) (@app Z) [] (fun i => [Z.of_nat i]) W n k))
+      | _, _, _, _ => sx_bad
+      end
+  | _ => sx_bad
+  end.
